@@ -509,7 +509,15 @@ def _map_walk(ex, p, mapv, ovs, key, k_found, k_absent):
         _map_walk(ex, p, mapv, rest, key, k_found, k_absent)
 
 
+def m_map_new(ex, p, call, k):
+    """HashMap/BTreeMap/HashSet::new() / with_capacity(): a fresh, empty finite map"""
+    short = call.short.split('::')[-2] if '::' in call.short else 'Map'
+    k(p, Sym(f'new()#{p.seq("new()")}', call.retty or short).with_ov('empty', True))
+
+
 def map_has_initial(mapv, key):
+    if isinstance(mapv, Sym) and mapv.get_ov('empty'):
+        return z3.BoolVal(False)
     if isinstance(key, z3.ExprRef):
         f = z3.Function(f'has<{mapv.name}>', key.sort(), z3.BoolSort())
         return f(key)
@@ -588,6 +596,69 @@ def m_vac_insert(ex, p, call, k):
     cell = ('H', f'entry-val{p.seq("entryval")}', '')
     p.mem[cell] = call.args[1]
     k(p, Ptr(cell, (), True))
+
+
+def m_int_try_from(ex, p, call, k):
+    """<uN as TryFrom<uM>>::try_from / <uM as TryInto<uN>>::try_into between unsigned machine integers"""
+    a = call.args[0]
+    tgt = (generic_arg(call.retty, 0) or '').strip()
+    w = int_width(tgt)
+    if not (isinstance(a, z3.ExprRef) and z3.is_bv(a)) or w is None or is_signed(tgt):
+        return NotImplemented
+    m = re.match(r'<(\w+) as Try(From|Into)>', call.short)
+    src = m.group(1) if m and m.group(2) == 'Into' else None
+    if src is not None and is_signed(src):
+        return NotImplemented
+    if m and m.group(2) == 'From' and 'TryFrom<i' in (call.callee if isinstance(call.callee, str) else ''):
+        return NotImplemented
+    sw = a.size()
+    if w >= sw:
+        val = z3.ZeroExt(w - sw, a) if w > sw else a
+        return k(p, ok(val))
+    fits = z3.ULE(a, z3.BitVecVal((1 << w) - 1, sw))
+    r = Sym(f'tryinto{p.seq("tryinto")}', call.retty).with_ov('discr', z3.If(fits, z3.BitVecVal(0, 64), z3.BitVecVal(1, 64))).with_ov(('v', 'Ok', 0), z3.Extract(w - 1, 0, a))
+    k(p, r)
+
+
+def m_entry_and_modify(ex, p, call, k):
+    """Entry::and_modify(f): f(&mut value) on an occupied entry (updated in place), vacant entries unchanged"""
+    e = _entry(ex, p, call.args[0])
+    if e.name != 'Entry':
+        return NotImplemented
+    if e.variant == 'Vacant':
+        return k(p, e)
+    occ = e.fields[0]
+    ptr, key, val = occ.fields
+    cell = ('H', f'entry-val{p.seq("entryval")}', '')
+    p.mem[cell] = val
+
+    def after(q, _ret):
+        k(q, Agg('Entry', 'Occupied', (Agg('OccupiedEntry', None, (ptr, key, q.mem.get(cell, val))),)))
+    ex.call_closure(p, call.args[1], [Ptr(cell, (), True)], call, after)
+
+
+def m_entry_or_insert(ex, p, call, k):
+    """Entry::or_insert(v) / or_insert_with(f) / or_default(): &mut to the (possibly just inserted) value"""
+    e = _entry(ex, p, call.args[0])
+    if e.name != 'Entry':
+        return NotImplemented
+    meth = call.short.rsplit('::', 1)[-1]
+    if e.variant == 'Occupied':
+        cell = ('H', f'entry-val{p.seq("entryval")}', '')
+        p.mem[cell] = e.fields[0].fields[2]
+        return k(p, Ptr(cell, (), True))
+    ptr, key = e.fields[0].fields[0], e.fields[0].fields[1]
+
+    def put(q, val):
+        _map_set(ex, q, ptr, _map_of(ex, q, ptr), key, val, call, 'insert')
+        cell = ('H', f'entry-val{q.seq("entryval")}', '')
+        q.mem[cell] = val
+        k(q, Ptr(cell, (), True))
+    if meth == 'or_insert':
+        return put(p, call.args[1])
+    if meth == 'or_insert_with':
+        return ex.call_closure(p, call.args[1], [], call, put)
+    return put(p, ex.fresh(f'default()#{p.seq("default")}', generic_arg(_map_of(ex, p, ptr).ty, 1) or ''))
 
 
 def m_map_insert(ex, p, call, k):
@@ -672,11 +743,15 @@ GLOBAL_MODELS = [
     (R(r'mem::replace$'), m_mem_replace),
     (R(r'mem::take$'), m_mem_take),
     (R(r'mem::drop$|^drop$'), m_drop_fn),
+    (R(r'(HashMap|BTreeMap|HashSet|BTreeSet)::(new|with_capacity)$'), m_map_new),
     (R(r'HashMap::entry$'), m_map_entry),
     (R(r'OccupiedEntry::(get|get_mut|into_mut)$'), m_occ_get),
     (R(r'OccupiedEntry::insert$'), m_occ_insert),
     (R(r'OccupiedEntry::(remove_entry|remove)$'), m_occ_remove_entry),
     (R(r'VacantEntry::insert$'), m_vac_insert),
+    (R(r'Entry::and_modify$'), m_entry_and_modify),
+    (R(r'^<(u8|u16|u32|u64|u128|usize) as Try(From|Into)>::try_(from|into)$'), m_int_try_from),
+    (R(r'Entry::(or_insert|or_insert_with|or_default)$'), m_entry_or_insert),
     (R(r'HashMap::insert$'), m_map_insert),
     (R(r'HashMap::remove$'), m_map_remove),
     (R(r'HashMap::(get|get_mut)$'), m_map_get),
